@@ -352,13 +352,18 @@ class Ranges(Sub):
     min_cases = 100
     min_nontrivial = 100
     ROWS = (1, 2, 10, 11, 1048576, 7)
-    COLS = ((0, 'A'), (1, 'B'), (25, 'Z'), (26, 'AA'), (16383, 'XFD'), (27, 'AB'))
+    # the last two: columns of four and five letters (beyond a sheet's XFD, but labels all the same)
+    COLS = ((0, 'A'), (1, 'B'), (16383, 'XFD'), (26, 'AA'), (25, 'Z'), (27, 'AB'), (18278, 'AAAA'), (475254 + 7, 'AAAAH'))
 
     def cases(self, tier, unit):
         n = 6 if tier == 'thorough' else 4
         for (r1, r2) in itertools.product(range(n), repeat=2):
             for (c1, c2) in itertools.product(range(n), repeat=2):
                 yield [r1, c1, r2, c2]
+        for (r1, r2) in ((0, 1), (1, 0), (2, 2)):
+            for (c1, c2) in itertools.product((0, 2, 6, 7), repeat=2):
+                if c1 >= 6 or c2 >= 6:
+                    yield [r1, c1, r2, c2]
 
     def check(self, env, case):
         rec = getattr(env, '_c10rng', None)
